@@ -63,11 +63,12 @@ def run(rep, tier):
     sfx = "small" if quick else "deep"
     rep.rule = ("TLC enumerates every goal l REL r (REL in = < <= > >=, and negations) with l of depth <= 2 over numerals %s and operators "
                 "+ - * / ^ DIV MOD uminus Suc real_inverse of_nat of_int at EACH of nat/int/real, casts of compound terms, terms one level "
-                "below a subtraction, right-hand sides simple numerals/fractions and %s; each goal is handed to each model of a trusted "
+                "below a subtraction, real powers with a nested-subtraction nat exponent, right-hand sides simple numerals/fractions and %s; each goal is handed to each model of a trusted "
                 "step (state = goal x step) and, as a vector, to EVERY level-0 arithmetic macro of the real checker as a one-step proof "
                 "through theory.check_proof at the default trust level (so int-/real-typed goals reach nat_eval and vice versa). Plus seeded "
                 "larger inputs: deeper mixed-type terms with right-hand sides computed by the code's own evaluators across types, near-equal "
-                "rationals, decimal sums forcing const_inequality's float path, polynomial identities with free variables (the code's own "
+                "rationals, decimal sums forcing const_inequality's float path, real powers with compound nat exponents (nested truncated "
+                "subtraction, closed and with free nat variables), polynomial identities with free variables (the code's own "
                 "normal forms, textbook identities, perturbations), equivalences of comparisons, huge constants. Non-trivial = some step "
                 "ACCEPTED the goal and the truth of the asserted sequent was decided by TLC with exact arithmetic; distinct by full event content."
                 % ("{0,2,3}" if quick else "{0,1,2,3,7}", "compound terms that some evaluator model equates" if quick else "compound terms (sums, differences, and all that some evaluator model equates)"))
